@@ -506,6 +506,9 @@ func (g *gen) typ(allowed []string) *SType {
 	switch base {
 	case "decimal64":
 		t.FD = 1 + g.r.Intn(6)
+		if g.r.Intn(4) == 0 {
+			t.FD = 7 + g.r.Intn(6) // more fraction digits than a %f rendering keeps
+		}
 	case "enumeration":
 		t.Enums = []string{"zero", "one", "two", "three"}[:2+g.r.Intn(3)]
 		if g.r.Intn(3) == 0 {
